@@ -26,6 +26,14 @@ Clauses (evaluated independently on every case):
   C13.<eng>-crash       an exception that is not SPSDKError out of the builder for a legal input
   C13.iee-bypass        bypass mode leaves the data as they are
   C13.otfad-blob-encrypt  KeyBlob.encrypt_image result is what the engine deciphers at base_address
+  C13.<eng>-history     on ONE object a later encrypt_image / export_image / binary_image / export_headers / key-blob
+                        export equals the first one, export_image agrees with binary_image, and the stored input
+                        (BinaryImage tree, input_image, key blobs) is unchanged afterwards
+  C13.<eng>-order       a configuration refused (SPSDKError) in one listing order of its non-overlapping regions is
+                        refused in the other order too
+Every listing order of the configured regions is enumerated (all permutations up to 3 regions, reversed + one
+rotation for 4; case key "perm"; for BEE the orders that change the add_fac sequence of an engine); the hardware
+oracle is the same for every order, so a result that depends on the order fails the read/keyblob clauses.
   C13.<eng>-terminates  watchdog
 A builder SPSDKError is a rejection (counted per message), never a violation.
 
@@ -36,6 +44,7 @@ its own discriminator; crashes carry exception type @ innermost spsdk frame.
 """
 from __future__ import annotations
 
+import dataclasses
 import itertools
 import os
 import traceback
@@ -334,6 +343,47 @@ def cut_pieces(base: int, L: int, piece: int) -> list[tuple[int, int]]:
     return out
 
 
+def perms_of(k: int) -> list[list[int]]:
+    """The non-identity orders in which k configured regions are listed: every permutation for k <= 3,
+    reversed + one rotation for k = 4.  perm[i] = canonical (ascending) index of the i-th listed region."""
+    if k <= 1:
+        return []
+    if k <= 3:
+        return [list(p) for p in itertools.permutations(range(k))][1:]
+    return [list(range(k))[::-1], list(range(1, k)) + [0]]
+
+
+def other_order(case: dict, key: str = "regs") -> Optional[dict]:
+    """The same configuration listed in another order (ascending if this one is permuted, reversed
+    otherwise); None for a single region.  Used when a case is refused: a refusal must not depend on
+    the order in which non-overlapping regions are listed."""
+    k = len(case[key])
+    if k < 2:
+        return None
+    alt = {a: b for a, b in case.items() if a != "perm"}
+    if not case.get("perm"):
+        alt["perm"] = list(range(k))[::-1]
+    return alt
+
+
+D_ORDER = "refused-only-in-this-order-of-the-regions"
+
+
+def reorder(items: Any, perm: Any) -> list:
+    return [items[p] for p in perm] if perm else list(items)
+
+
+def judge_history(eng: str, what: str, first: bytes, later: bytes, L: Optional[int] = None) -> list:
+    """A later export on the same object must equal the first one (on the first L bytes when random
+    trailing padding is allowed)."""
+    a, b = (first, later) if L is None else (first[:L], later[:L])
+    if a == b and len(first) == len(later):
+        return []
+    o = next((i for i in range(min(len(a), len(b))) if a[i] != b[i]), min(len(a), len(b)))
+    return [(f"C13.{eng}-history", f"{what}:later-call-differs-from-first",
+             f"{what}: second result differs from the first at offset {o:#x}; lengths {len(first)} vs {len(later)}")]
+
+
 # ---------------------------------------------------------------------------------------------
 # OTFAD
 
@@ -358,6 +408,8 @@ def otfad_cfg(hwm: Any, case: dict, a0: int) -> list:
         s, e = a0 + gi * U_OTFAD, a0 + gj * U_OTFAD - 1
         cfg.append(hwm.Context(idx, pat(seed, f"key{idx}", 16, case.get("key", "seed")),
                                pat(seed, f"ctr{idx}", 8, case.get("ctr", "seed")), s, (e & ~7) | fl, bytes(4), 0, True))
+    if case.get("perm"):  # listed in another order: same key per region, table index = position in the list
+        cfg = [dataclasses.replace(cfg[p], index=i) for i, p in enumerate(case["perm"])]
     return cfg
 
 
@@ -494,20 +546,48 @@ def w_otfad_img(case: dict) -> dict:
     cfg = otfad_cfg(hwm, case, a0)
     self_chosen = bool(case.get("self", 0))
     own_rng(seed)
-    try:
-        otfad = Otfad()
-        for c in cfg:
+
+    def build(cf: list) -> Any:
+        o = Otfad()
+        for c in cf:
             if self_chosen:  # key, counter and zero_fill drawn by the library (owned generator)
-                otfad.add_key_blob(KeyBlob(c.first, c.last + endc, key_flags=c.flags))
+                o.add_key_blob(KeyBlob(c.first, c.last + endc, key_flags=c.flags))
             else:
-                otfad.add_key_blob(KeyBlob(c.first, c.last + endc, key=c.key, counter_iv=c.ctr, key_flags=c.flags,
-                                           zero_fill=bytes(4)))
+                o.add_key_blob(KeyBlob(c.first, c.last + endc, key=c.key, counter_iv=c.ctr, key_flags=c.flags,
+                                       zero_fill=bytes(4)))
+        return o
+
+    pre: list = []
+    try:
+        otfad = build(cfg)
         enc = otfad.encrypt_image(img, base, swap)
         table = otfad.encrypt_key_blobs(kek)
+        plain_before = None if (self_chosen or L > 16) else otfad.get_key_blobs()
     except SPSDKError as e:
-        return {"viol": [], "count": {"otfad_img_rejected": 1, f"rejected:otfad:{str(e)[:40]}": 1}}
+        alt = other_order(case)
+        if alt is not None and not self_chosen:
+            try:
+                ao = build(otfad_cfg(hwm, alt, a0))
+                ao.encrypt_image(img, base, swap)
+                ao.encrypt_key_blobs(kek)
+                pre.append(("C13.otfad-order", D_ORDER, f"perm {case.get('perm')}: {e}; accepted with perm {alt.get('perm')}"))
+            except Exception:  # noqa
+                pass
+        return {"viol": pre, "count": {"otfad_img_rejected": 1, f"rejected:otfad:{str(e)[:40]}": 1}}
     except Exception as e:  # noqa
         return {"viol": [("C13.otfad-crash", exc_site(e), f"{type(e).__name__}: {e}")], "count": {"otfad_img": 1}}
+    # history on one object: a second call gives the same image and table, key blobs unchanged
+    # (second image on the option diagonal swap = end convention = 0 and wherever 16-byte pieces are asked, to bound the cost)
+    try:
+        if case.get("pieces") or not (swap or endc or case.get("perm") or case.get("ctr", "seed") != "seed"):
+            pre += judge_history("otfad", "Otfad.encrypt_image", enc, otfad.encrypt_image(img, base, swap))
+        if not self_chosen and L <= 16:  # the tables do not depend on the image: re-exported for the shortest images only
+            pre += judge_history("otfad", "Otfad.encrypt_key_blobs", table, otfad.encrypt_key_blobs(kek))
+            pre += judge_history("otfad", "Otfad.get_key_blobs", plain_before, otfad.get_key_blobs())
+    except SPSDKError as e:
+        pre.append(("C13.otfad-history", "second-call-rejected", str(e)))
+    except Exception as e:  # noqa
+        pre.append(("C13.otfad-crash", exc_site(e) + ",second-call", f"{type(e).__name__}: {e}"))
     if self_chosen:
         # the engine holds what it unwraps from the exported table: take key/counter from there,
         # keep the configured geometry and flags (they are compared by the key-blob clause below)
@@ -519,8 +599,8 @@ def w_otfad_img(case: dict) -> dict:
         if len({g.key for g in got}) != len(got) or len({g.ctr for g in got}) != len(got):
             return {"viol": [("C13.otfad-keyblob", "self-chosen-keys-repeat", "two blobs drew the same key/counter")],
                     "count": {"otfad_img": 1}}
-    viol = otfad_judge_image(hwm, cfg, swap, endc, img, base, enc, lambda d, a: otfad.encrypt_image(d, a, swap),
-                             case.get("pieces", (U_OTFAD,)), cnt)
+    viol = pre + otfad_judge_image(hwm, cfg, swap, endc, img, base, enc, lambda d, a: otfad.encrypt_image(d, a, swap),
+                                   case.get("pieces", (U_OTFAD,)), cnt)
     # key blobs of this configuration (default transport options; the option product is in w_otfad_kb)
     viol += otfad_table_judge(hwm, table, cfg, kek, 0, None, None, False, zero_fill=None if self_chosen else bytes(4))
     try:
@@ -557,6 +637,11 @@ def w_otfad_kb(case: dict) -> dict:
     except Exception as e:  # noqa
         return {"viol": [("C13.otfad-crash", exc_site(e), f"{type(e).__name__}: {e}")], "count": {"otfad_kb": 1}}
     viol = otfad_table_judge(hwm, table, cfg, kek, case["swapcnt"], mask, align, bool(case["rev"]))
+    try:  # history on one object: the second export gives the same table (one byte-swap count is enough)
+        if case["swapcnt"] == 0:
+            viol += judge_history("otfad", "Otfad.encrypt_key_blobs", table, o.encrypt_key_blobs(kek, mask, align, 0))
+    except Exception as e:  # noqa
+        viol.append(("C13.otfad-history", "second-call-raised", f"{type(e).__name__}: {e}"))
     return {"viol": core.dedupe(viol), "count": {"otfad_kb": 1, "nontrivial": 1}}
 
 
@@ -583,6 +668,10 @@ def w_otfad_blobapi(case: dict) -> dict:
     except Exception as e:  # noqa
         return {"viol": [("C13.otfad-crash", exc_site(e) + ",KeyBlob.encrypt_image", f"{type(e).__name__}: {e}")], "count": {}}
     viol = []
+    try:  # history on one object: the second call gives the same bytes
+        viol += judge_history("otfad", "KeyBlob.encrypt_image", enc, kb.encrypt_image(base, img, swap))
+    except Exception as e:  # noqa
+        viol.append(("C13.otfad-history", "second-call-raised", f"{type(e).__name__}: {e}"))
     if not (L <= len(enc) <= -(-L // 16) * 16):
         viol.append(("C13.otfad-blob-encrypt", "length", f"in {L} out {len(enc)}"))
     rd = hwm.OtfadHw(cfg, byte_swap=swap).read(enc, base)
@@ -617,7 +706,7 @@ def otfad_img_cases(ctx: core.Ctx) -> list[dict]:
         for off in (0, 16, U_OTFAD - 16):
             n = n_units(off, L, U_OTFAD)
             full_chains = thorough and L in LENGTHS
-            heavy = (not thorough) and L >= 4096  # quick: the most expensive length gets the inner grid for pairs too
+            heavy = (not thorough) and L >= 2048  # quick: the most expensive lengths get the inner grid for pairs too
             lays = grid_layouts(-2, n + 2, pairs=True, chains=(3, 4), chain_lo=None if full_chains else -1,
                                 chain_hi=None if full_chains else n + 1, pair_lo=-1 if heavy else None,
                                 pair_hi=n + 1 if heavy else None)
@@ -643,19 +732,25 @@ def otfad_img_cases(ctx: core.Ctx) -> list[dict]:
                                    for sw in (0, 1) for ec in (0, 1)]
                         combos += [((3, 3), 0, ec, "ones", 0) for ec in (0, 1)]
                     else:
-                        combos += [(fs, 0, 0, "seed", 0) for fs in ((1, 3), (3, 2))]
+                        if L not in (0, 15):  # quick: the flag departures on pairs are skipped for two of the five sub-block lengths
+                            combos += [(fs, 0, 0, "seed", 0) for fs in ((1, 3), (3, 2))]
+                        combos += [((3, 3), 0, 0, "seed", 1)]  # the other order of the two blobs
                 else:
                     alt = tuple([3, 1] * 2)[:k]
                     combos = [(tuple([3] * k), sw, ec, "seed", 0) for sw in (0, 1) for ec in (0, 1) if not heavy or sw == ec]
                     combos += [(alt, 0, 0, "seed", 0)]
-                    if thorough:
-                        combos += [(tuple([3] * k), 0, ec, "seed", 1) for ec in (0, 1)]
+                    # every other order of the chain (all permutations of 3, reversed + rotated for 4)
+                    if not heavy or off == 16:
+                        combos += [(tuple([3] * k), 0, ec, "seed", pi + 1) for pi in range(len(perms_of(k)))
+                                   for ec in ((0, 1) if thorough else (0,))]
                 for fs, sw, ec, ct, order in combos:
                     regs = [[i, j, f] for (i, j), f in zip(lay, fs)]
-                    if order:
-                        regs = regs[::-1]
                     c = {"e": "otfad-img", "seed": ctx.seed, "L": L, "off": off, "win": "mid", "regs": regs,
                          "swap": sw, "endc": ec, "ctr": ct}
+                    if order:
+                        c["perm"] = perms_of(k)[order - 1]
+                    if heavy and (sw or ec):
+                        c["pieces"] = []  # quick, longest image: locality only on the option diagonal swap = end convention = 0
                     if ct == "self":
                         c.update(ctr="seed", self=1)
                     if thorough and L <= 2048 and k <= 2 and fs == tuple([3] * k) and ct == "seed" and not order:
@@ -690,15 +785,22 @@ def otfad_kb_cases(ctx: core.Ctx) -> list[dict]:
                                                                        tuple((i * 3 + 1) & 7 for i in range(len(lay)))]
             for fs in flagsets:
                 regs = [[i, j, f] for (i, j), f in zip(lay, fs)]
-                for kek in KEK_PATTERNS if thorough else KEK_PATTERNS[:2]:
+                for kek in KEK_PATTERNS if thorough else KEK_PATTERNS[:2] if a0 == 0x08001000 else KEK_PATTERNS[:1]:
                     for scr in (SCRAMBLES if thorough else SCRAMBLES[:4]):
                         for rev in ((0, 1) if scr else (0,)):
                             for swapcnt in (0, 2, 4, 8, 16):
-                                for endc in (0, 1):
+                                for endc in ((0, 1) if (thorough or scr is None or swapcnt == 0) else (swapcnt // 2 % 2,)):
                                     for keyp in (("seed", "ones", "zero") if thorough and len(lay) == 1 else ("seed",)):
                                         cases.append({"e": "otfad-kb", "seed": ctx.seed, "a0": a0, "regs": regs, "kek": kek,
                                                       "scr": scr, "rev": rev, "swapcnt": swapcnt, "endc": endc, "key": keyp,
                                                       "ctr": keyp})
+                # every other order of the blobs in the table (the scramble word selector goes by table position)
+                for perm in perms_of(len(lay)):
+                    for scr in (None, (0x12345678, 0x72), (0x80000001, 0xE4)):
+                        for rev in ((0, 1) if scr else (0,)):
+                            for swapcnt in (0, 8):
+                                cases.append({"e": "otfad-kb", "seed": ctx.seed, "a0": a0, "regs": regs, "perm": perm, "kek": "seed",
+                                              "scr": scr, "rev": rev, "swapcnt": swapcnt, "endc": 0, "key": "seed", "ctr": "seed"})
     return cases
 
 
@@ -739,7 +841,13 @@ def iee_cfg(hwm: Any, case: dict, a0: int) -> list:
         cfg.append(hwm.Context(idx, hwm.HEADER_TAG, hwm.VERSION, lock, IEE_KS[ks][0], IEE_MODES[mode], 0,
                                case.get("po", 0), key1 + bytes(32 - k1n), key2 + bytes(32 - k2n),
                                a0 + gi * U_IEE, a0 + gj * U_IEE, 0, 0, True))
+    if case.get("perm"):  # listed in another order: same keys per region, record index = position in the list
+        cfg = [dataclasses.replace(cfg[p], index=i) for i, p in enumerate(case["perm"])]
     return cfg
+
+
+def iee_modes(case: dict) -> list:
+    return reorder([(m, ks) for _, _, m, ks in case["regs"]], case.get("perm"))
 
 
 def iee_build(cfg: list, modes: list, self_chosen: bool = False) -> Any:
@@ -849,7 +957,7 @@ def w_iee_img(case: dict) -> dict:
     a0 = IEE_WIN[case["win"]]
     base = a0
     img = core.seeded_bytes(seed, f"img{L}", L)
-    modes = [(m, ks) for _, _, m, ks in case["regs"]]
+    modes = iee_modes(case)
     cfg = iee_cfg(hwm, case, a0)
     k1, k2 = pat(seed, "ibkek1", 32), pat(seed, "ibkek2", 32)
     kaddr = case.get("kaddr", 0x30000000)
@@ -857,13 +965,25 @@ def w_iee_img(case: dict) -> dict:
     viol: list = []
     self_chosen = bool(case.get("self", 0))
     own_rng(seed)
+
+    def refused(e: Exception) -> list:
+        alt = other_order(case)
+        if alt is None or self_chosen:
+            return []
+        try:
+            iee_build(iee_cfg(hwm, alt, a0), iee_modes(alt)).encrypt_image(img, base)
+        except Exception:  # noqa
+            return []
+        return [("C13.iee-order", D_ORDER, f"perm {case.get('perm')}: {e}; accepted with perm {alt.get('perm')}")]
+
     try:
         iee = iee_build(cfg, modes, self_chosen)
     except SPSDKError as e:
-        return {"viol": [], "count": {"iee_img_rejected": 1, f"rejected:iee:{str(e)[:40]}": 1}}
+        return {"viol": refused(e), "count": {"iee_img_rejected": 1, f"rejected:iee:{str(e)[:40]}": 1}}
     except Exception as e:  # noqa
         return {"viol": [("C13.iee-crash", exc_site(e) + ",ctor", f"{type(e).__name__}: {e}")], "count": cnt}
     # key blobs (independent of the image clause)
+    plain_tab = enc_tab = None
     try:
         plain_tab, enc_tab = iee.get_key_blobs(), iee.encrypt_key_blobs(k1, k2, kaddr)
         if self_chosen:
@@ -886,7 +1006,7 @@ def w_iee_img(case: dict) -> dict:
     except SPSDKError as e:
         cnt["iee_img_rejected"] = 1
         cnt[f"rejected:iee:{str(e)[:40]}"] = 1
-        return {"viol": core.dedupe(viol), "count": cnt}
+        return {"viol": core.dedupe(viol + refused(e)), "count": cnt}
     except Exception as e:  # noqa
         hit = [f"{m}{ks}" for c, (m, ks) in zip(cfg, modes) if c.start < base + max(L, 1) and c.end > base]
         carry = any(m in ("CTRA", "CTRN", "KSTR") and
@@ -895,6 +1015,16 @@ def w_iee_img(case: dict) -> dict:
         viol.append(("C13.iee-crash", exc_site(e) + (",counter-low-word-carry" if carry else ""),
                      f"{type(e).__name__}: {e}; blobs hit {hit}; base {base:#x} len {L}"))
         return {"viol": core.dedupe(viol), "count": cnt}
+    # history on one object: a second call gives the same image and tables
+    try:
+        viol += judge_history("iee", "Iee.encrypt_image", enc, iee.encrypt_image(img, base))
+        if not self_chosen and plain_tab is not None and L <= 16:
+            viol += judge_history("iee", "Iee.get_key_blobs", plain_tab, iee.get_key_blobs())
+            viol += judge_history("iee", "Iee.encrypt_key_blobs", enc_tab, iee.encrypt_key_blobs(k1, k2, kaddr))
+    except SPSDKError as e:
+        viol.append(("C13.iee-history", "second-call-rejected", str(e)))
+    except Exception as e:  # noqa
+        viol.append(("C13.iee-crash", exc_site(e) + ",second-call", f"{type(e).__name__}: {e}"))
     viol += iee_judge_image(hwm, cfg, modes, img, base, enc, lambda d, a: iee.encrypt_image(d, a),
                             case.get("pieces", (U_IEE,)), cnt)
     if L > 0 and any(c.start < base + L and c.end > base for c in cfg):
@@ -910,7 +1040,7 @@ def w_iee_kb(case: dict) -> dict:
     from vf.ref import iee_hw as hwm
 
     seed = case["seed"]
-    modes = [(m, ks) for _, _, m, ks in case["regs"]]
+    modes = iee_modes(case)
     cfg = iee_cfg(hwm, case, case["a0"])
     k1, k2 = pat(seed, "ibkek1", 32, case["kek"]), pat(seed, "ibkek2", 32, "seed" if case["kek"] != "seed" else "inc")
     try:
@@ -921,6 +1051,12 @@ def w_iee_kb(case: dict) -> dict:
     except Exception as e:  # noqa
         return {"viol": [("C13.iee-crash", exc_site(e) + ",keyblobs", f"{type(e).__name__}: {e}")], "count": {"iee_kb": 1}}
     viol = iee_table_judge(hwm, plain, enc, cfg, k1, k2, case["kaddr"])
+    try:  # history on one object: the second export gives the same tables (one key-blob address is enough)
+        if case["kaddr"] == 0x30000000:
+            viol += judge_history("iee", "Iee.get_key_blobs", plain, iee.get_key_blobs())
+            viol += judge_history("iee", "Iee.encrypt_key_blobs", enc, iee.encrypt_key_blobs(k1, k2, case["kaddr"]))
+    except Exception as e:  # noqa
+        viol.append(("C13.iee-history", "second-call-raised", f"{type(e).__name__}: {e}"))
     return {"viol": core.dedupe(viol), "count": {"iee_kb": 1, "nontrivial": 1}}
 
 
@@ -936,7 +1072,7 @@ def w_iee_blobapi(case: dict) -> dict:
     a0 = IEE_WIN[case["win"]]
     base = a0 + case["uoff"] * U_IEE
     img = core.seeded_bytes(seed, f"img{L}", L)
-    modes = [(m, ks) for _, _, m, ks in case["regs"]]
+    modes = iee_modes(case)
     cfg = iee_cfg(hwm, case, a0)
     cnt: dict = {"iee_blobapi": 1}
     try:
@@ -951,6 +1087,10 @@ def w_iee_blobapi(case: dict) -> dict:
         return {"viol": [("C13.iee-crash", exc_site(e) + (",counter-low-word-carry" if carry else ""),
                           f"{type(e).__name__}: {e}; IeeKeyBlob.encrypt_image({base:#x}, {L} bytes) mode {modes[0]}")], "count": cnt}
     viol = iee_judge_image(hwm, cfg, modes, img, base, enc, None, (), cnt)
+    try:  # history on one object: the second call gives the same bytes
+        viol += judge_history("iee", "IeeKeyBlob.encrypt_image", enc, kb.encrypt_image(base, img))
+    except Exception as e:  # noqa
+        viol.append(("C13.iee-history", "second-call-raised", f"{type(e).__name__}: {e}"))
     if L:
         cnt["nontrivial"] = 1
     return {"viol": core.dedupe(viol), "count": cnt}
@@ -973,7 +1113,7 @@ def iee_img_cases(ctx: core.Ctx) -> list[dict]:
     cases = []
     second = IEE_CLAIMED + [("CTRN", 128), ("KSTR", 256)] if thorough else [("XTS", 256), ("CTRA", 128)]
     for win in ("mid", "low", "high"):
-        for L in (IEE_LENGTHS_THOROUGH if thorough else IEE_LENGTHS if win == "mid" else (1, 17, 4096, 4097, 8193)):
+        for L in (IEE_LENGTHS_THOROUGH if thorough else IEE_LENGTHS if win == "mid" else (1, 4097, 8193)):
             n = n_units(0, L, U_IEE)
             lo = 0 if win == "low" else -2
             full = win == "mid" or thorough
@@ -984,18 +1124,27 @@ def iee_img_cases(ctx: core.Ctx) -> list[dict]:
                 k = len(lay)
                 if k == 1:
                     combos = [([mk], k2) for mk in IEE_CLAIMED for k2 in (("low0", "seed", "lowmax", "ones") if mk[0] == "CTRA" else ("low0",))]
-                    combos += [([mk], k2) for mk in IEE_CRASH_ONLY for k2 in ("low0", "ones")]
+                    combos += [([mk], k2) for mk in IEE_CRASH_ONLY for k2 in (("low0", "ones") if thorough or L < 8192 else ("low0",))]
                     combos += [([mk], "self") for mk in IEE_CLAIMED]
                 elif k == 2:
-                    combos = [([m1, m2], "low0") for m1 in IEE_CLAIMED for m2 in second]
+                    combos = [([m1, m2], "low0") for mi, m1 in enumerate(IEE_CLAIMED) for si, m2 in enumerate(second)
+                              if thorough or mi < 2 or (mi + si) % 2 == 0]
                     if thorough:
                         combos += [([m2, m1], "low0") for m1 in IEE_CRASH_ONLY for m2 in IEE_CLAIMED[:4]]
                 else:
                     rot = IEE_CLAIMED[:4] + [("BYP", 256)]
                     combos = [([rot[(i + s) % len(rot)] for i in range(k)], "low0") for s in range(len(rot))]
-                for ms, k2 in combos:
+                # every other order of the listed blobs (all permutations up to 3, reversed + rotated for 4)
+                ordered = []
+                if k == 2:
+                    ordered = [(ms, k2, [1, 0]) for ci, (ms, k2) in enumerate(combos) if ci % (2 if thorough else 4) == 0]
+                elif k >= 3:
+                    ordered = [(ms, k2, perm) for perm in perms_of(k) for ms, k2 in combos[:2 if thorough else 1]]
+                for ms, k2, perm in [(ms, k2, None) for ms, k2 in combos] + ordered:
                     regs = [[i, j, m, ks] for (i, j), (m, ks) in zip(lay, ms)]
                     c = {"e": "iee-img", "seed": ctx.seed, "L": L, "win": win, "regs": regs, "k2": k2}
+                    if perm:
+                        c["perm"] = perm
                     if k2 == "self":
                         c.update(k2="low0", self=1)
                     if thorough and L >= 8192:
@@ -1017,11 +1166,14 @@ def iee_kb_cases(ctx: core.Ctx) -> list[dict]:
                 for lock in (0, 1):
                     for po in (0, 0x1000) if thorough else (0,):
                         for kek in ("seed", "inc", "ones") if thorough else ("seed", "inc"):
-                            for kaddr in (0x30000000, 0x30000400, 0x04000000, 0, 0xFFFFFC00):
+                            for kaddr in ((0x30000000, 0x30000400, 0x04000000, 0, 0xFFFFFC00) if thorough else (0x30000000, 0x30000400, 0xFFFFFC00)):
                                 for k2 in ("low0", "ones"):
                                     cases.append({"e": "iee-kb", "seed": ctx.seed, "a0": a0, "kaddr": kaddr, "kek": kek, "lock": lock,
                                                   "po": po, "k2": k2,
                                                   "regs": [[i, j, m, ks] for (i, j), (m, ks) in zip(lay, ms)]})
+                for perm in perms_of(k):  # every other order of the blobs in the table
+                    cases.append({"e": "iee-kb", "seed": ctx.seed, "a0": a0, "kaddr": 0x30000000, "kek": "seed", "lock": 0, "po": 0,
+                                  "k2": "low0", "perm": perm, "regs": [[i, j, m, ks] for (i, j), (m, ks) in zip(lay, ms)]})
     return cases
 
 
@@ -1043,7 +1195,7 @@ def bee_cfg(hwm: Any, case: dict, a0: int) -> list:
     """Configured engines (None for an unused slot).  facs: [gi, gj, engine, level]."""
     seed = case["seed"]
     engines: list = [None, None]
-    for gi, gj, eng, level in case["facs"]:
+    for gi, gj, eng, level in reorder(case["facs"], case.get("perm")):  # FACs are added in the listed order
         if engines[eng] is None:
             nonce = pat(seed, f"nonce{eng}", 12, case.get("nonce", "seed")) + bytes(4)
             engines[eng] = hwm.Engine(eng, pat(seed, f"ukey{eng}", 16, case.get("ukey", "seed")), pat(seed, f"kibk{eng}", 16),
@@ -1179,11 +1331,24 @@ def w_bee_img(case: dict) -> dict:
     cfg = bee_cfg(hwm, case, a0)
     cnt: dict = {"bee_img": 1}
     viol: list = []
+
+    def order_verdict(e: Exception) -> list:
+        alt = other_order(case, "facs")
+        if alt is None or self_chosen:
+            return []
+        try:
+            ab = bee_build(bee_cfg(hwm, alt, a0), img, base, False)
+            ab.export_headers()
+            ab.export_image()
+        except Exception:  # noqa
+            return []
+        return [("C13.bee-order", D_ORDER, f"perm {case.get('perm')}: {e}; accepted with perm {alt.get('perm')}")]
+
     try:
         bee = bee_build(cfg, img, base, self_chosen)
         hdrs = bee.export_headers()
     except SPSDKError as e:
-        return {"viol": [], "count": {"bee_img_rejected": 1, f"rejected:bee:{str(e)[:40]}": 1}}
+        return {"viol": order_verdict(e), "count": {"bee_img_rejected": 1, f"rejected:bee:{str(e)[:40]}": 1}}
     except Exception as e:  # noqa
         return {"viol": [("C13.bee-crash", exc_site(e) + ",headers", f"{type(e).__name__}: {e}")], "count": cnt}
     hv, loaded = bee_header_judge(hwm, cfg, hdrs, self_chosen)
@@ -1198,15 +1363,43 @@ def w_bee_img(case: dict) -> dict:
     except SPSDKError as e:
         cnt["bee_img_rejected"] = 1
         cnt[f"rejected:bee:{str(e)[:40]}"] = 1
-        return {"viol": core.dedupe(viol), "count": cnt}
+        return {"viol": core.dedupe(viol + order_verdict(e)), "count": cnt}
     except Exception as e:  # noqa
         viol.append(("C13.bee-crash", exc_site(e), f"{type(e).__name__}: {e}"))
         return {"viol": core.dedupe(viol), "count": cnt}
+    # history on one object: a second export gives the same image and headers, the input image is untouched
+    try:
+        viol += judge_history("bee", "BeeNxp.export_image", enc, bee.export_image(), L)
+        if not self_chosen and L <= 16:  # the headers do not depend on the image: re-exported for the shortest images only
+            for h1, h2 in zip(hdrs, bee.export_headers()):
+                viol += judge_history("bee", "BeeNxp.export_headers", h1 or b"", h2 or b"")
+        if bytes(bee.input_image) != img:
+            viol.append(("C13.bee-history", "input-image-modified", "BeeNxp.input_image changed by export_image"))
+    except SPSDKError as e:
+        viol.append(("C13.bee-history", "second-call-rejected", str(e)))
+    except Exception as e:  # noqa
+        viol.append(("C13.bee-crash", exc_site(e) + ",second-call", f"{type(e).__name__}: {e}"))
     viol += bee_judge_image(hwm, engines, img, base, enc, lambda d, a: BeeNxp(bee.headers, d, a).export_image(),
                             case.get("pieces", (U_BEE,)), cnt)
     if L > 0 and any(f.start < base + L and f.end > base for e in cfg if e for f in e.facs):
         cnt["nontrivial"] = 1
     return {"viol": core.dedupe(viol), "count": cnt}
+
+
+def bee_orders(asg: tuple) -> list[list[int]]:
+    """The listing orders of the FAC regions that give another order of add_fac calls on some engine
+    (orders that only interleave the two engines differently build the very same objects)."""
+    def key(perm: Any) -> tuple:
+        return tuple(tuple(p for p in perm if asg[p] == e) for e in (0, 1))
+
+    ident = key(range(len(asg)))
+    seen = {ident}
+    out = []
+    for perm in perms_of(len(asg)):
+        if key(perm) not in seen:
+            seen.add(key(perm))
+            out.append(perm)
+    return out
 
 
 def engine_assignments(k: int) -> list[tuple]:
@@ -1233,6 +1426,8 @@ def bee_img_cases(ctx: core.Ctx) -> list[dict]:
                                      {"ukey": "ones"}]
                     elif k == 2 and thorough:
                         variants += [{"self": 1}, {"nonce": "ones"}]
+                    if thorough or k == 2 or L < 1023 or off == 16:  # quick: chain orders on one base offset for the longer images
+                        variants += [{"perm": perm} for perm in bee_orders(asg)]  # every other order of add_fac per engine
                     for v in variants:
                         c = dict(base_case, **v)
                         if thorough and L <= 2048 and k <= 2 and not v:
@@ -1292,6 +1487,16 @@ def hx(b: bytes) -> str:
     return "0x" + b.hex()
 
 
+def snapshot(img: Any) -> list:
+    """Content of a BinaryImage tree (the stored input of an *Nxp object)."""
+    if img is None:
+        return []
+    out = [(img.name, img.offset, bytes(img.binary) if img.binary is not None else None)]
+    for sub in img.sub_images:
+        out += snapshot(sub)
+    return out
+
+
 def w_otfad_nxp(case: dict) -> dict:
     _quiet()
     from spsdk.exceptions import SPSDKError
@@ -1325,26 +1530,37 @@ def w_otfad_nxp(case: dict) -> dict:
             mask, align = case["scr"]
     cnt: dict = {"otfad_nxp": 1}
     viol: list = []
+    swap = bool(case.get("swap"))
     try:
         check_config(conf, OtfadNxp.get_validation_schemas(fam), search_paths=[td])
         o = OtfadNxp.load_from_config(conf, td, [td])
-        whole = o.binary_image()
-        data = whole.export()
-        if case.get("swap"):
-            part = o.export_image(swap_bytes=True, table_address=ta)
-            mem, mem_base = part.export(), ta + part.offset
-        else:
-            mem, mem_base = data, ta
+        before = snapshot(o.binaries)
+        # history on ONE object: binary_image, export_image, binary_image (binary_image itself calls export_image)
+        data = o.binary_image().export()
+        part = o.export_image(swap_bytes=swap, table_address=ta)
+        part_bytes, part_base = part.export(), ta + part.offset
+        data3 = o.binary_image().export()
+        after = snapshot(o.binaries)
     except SPSDKError as e:
-        return {"viol": [], "count": {"otfad_nxp_rejected": 1, f"rejected:otfad-nxp:{str(e)[:40]}": 1}}
+        alt = other_order(case)
+        if alt is not None and not case.get("in_alt"):
+            r = w_otfad_nxp(dict(alt, in_alt=1))
+            if r["count"].get("otfad_nxp") and not r["count"].get("otfad_nxp_rejected"):
+                viol.append(("C13.otfad-order", D_ORDER, f"perm {case.get('perm')}: {e}; accepted with perm {alt.get('perm')}"))
+        return {"viol": viol, "count": {"otfad_nxp_rejected": 1, f"rejected:otfad-nxp:{str(e)[:40]}": 1}}
     except Exception as e:  # noqa
         return {"viol": [("C13.otfad-crash", exc_site(e), f"{type(e).__name__}: {e}")], "count": cnt}
+    viol += judge_history("otfad", "OtfadNxp.binary_image", data, data3)
+    if before != after:
+        viol.append(("C13.otfad-history", "stored-input-modified", "OtfadNxp.binaries changed by export_image/binary_image"))
+    if not swap and data[part_base - ta: part_base - ta + len(part_bytes)] != part_bytes:
+        viol.append(("C13.otfad-history", "export_image-differs-from-binary_image", "same object, same options"))
+    mem, mem_base = (part_bytes, part_base) if swap else (data, ta)
     viol += otfad_table_judge(hwm, data[:256], cfg, kek, swap_cnt, mask, align, rev, records=4)
     for addr, img in blobs:
         lo = addr - mem_base
         enc = mem[lo: lo + -(-len(img) // 16) * 16] if 0 <= lo else b""
-        viol += otfad_judge_image(hwm, cfg, bool(case.get("swap")), endc, img, addr, enc, None, (), cnt,
-                                  walk_len=-(-len(img) // 16) * 16)
+        viol += otfad_judge_image(hwm, cfg, swap, endc, img, addr, enc, None, (), cnt, walk_len=-(-len(img) // 16) * 16)
     if any(len(img) and any(c.valid and c.first < a + len(img) and c.last >= a for c in cfg) for a, img in blobs):
         cnt["nontrivial"] = 1
     return {"viol": core.dedupe(viol), "count": cnt}
@@ -1362,7 +1578,7 @@ def w_iee_nxp(case: dict) -> dict:
     own_rng(seed)
     ka, a0 = 0x30000000, 0x30002000
     td = workdir()
-    modes = [(m, ks) for _, _, m, ks in case["regs"]]
+    modes = iee_modes(case)
     cfg = iee_cfg(hwm, case, a0)
     k1, k2 = pat(seed, "ibkek1", 32), pat(seed, "ibkek2", 32)
     blobs = []
@@ -1387,23 +1603,52 @@ def w_iee_nxp(case: dict) -> dict:
     try:
         check_config(conf, IeeNxp.get_validation_schemas(fam), search_paths=[td])
         o = IeeNxp.load_from_config(conf, td, [td])
+        before = snapshot(o.binaries)
+        # history on ONE object: binary_image, export_image, binary_image (binary_image itself calls export_image)
         data = o.binary_image().export()
+        part = o.export_image()
+        part_bytes, part_base = (part.export(), ka + part.offset) if part is not None else (b"", ka)
+        data3 = o.binary_image().export()
+        after = snapshot(o.binaries)
     except SPSDKError as e:
-        return {"viol": [], "count": {"iee_nxp_rejected": 1, f"rejected:iee-nxp:{str(e)[:40]}": 1}}
+        alt = other_order(case)
+        if alt is not None and not case.get("in_alt"):
+            r = w_iee_nxp(dict(alt, in_alt=1))
+            if r["count"].get("iee_nxp") and not r["count"].get("iee_nxp_rejected"):
+                viol.append(("C13.iee-order", D_ORDER, f"perm {case.get('perm')}: {e}; accepted with perm {alt.get('perm')}"))
+        return {"viol": viol, "count": {"iee_nxp_rejected": 1, f"rejected:iee-nxp:{str(e)[:40]}": 1}}
     except Exception as e:  # noqa
         carry = any(m in ("CTRA", "CTRN", "KSTR") and int.from_bytes(hwm.words_be(c.key2[:16])[12:], "big") + (c.end >> 4) >= 1 << 32
                     for c, (m, ks) in zip(cfg, modes))
         return {"viol": [("C13.iee-crash", exc_site(e) + (",counter-low-word-carry" if carry else ""),
                           f"{type(e).__name__}: {e}")], "count": cnt}
+    viol += judge_history("iee", "IeeNxp.binary_image", data, data3)
+    if before != after:
+        viol.append(("C13.iee-history", "stored-input-modified", "IeeNxp.binaries changed by export_image/binary_image"))
+    if data[part_base - ka: part_base - ka + len(part_bytes)] != part_bytes:
+        viol.append(("C13.iee-history", "export_image-differs-from-binary_image", "same object"))
     if IEE_FAM[fam]:
         viol += iee_table_judge(hwm, None, data[:hwm.TABLE], cfg, k1, k2, ka)
     for addr, img in blobs:
         lo = addr - ka
         enc = data[lo: lo + -(-len(img) // 16) * 16]
         viol += iee_judge_image(hwm, cfg, modes, img, addr, enc, None, (), cnt)
+        if data3 != data:  # a later export that differs is judged on its own as well
+            viol += [(c, d + ",second-binary_image", t) for c, d, t in
+                     iee_judge_image(hwm, cfg, modes, img, addr, data3[lo: lo + -(-len(img) // 16) * 16], None, (), cnt)]
     if any(len(img) and any(c.start < a + len(img) and c.end > a for c in cfg) for a, img in blobs):
         cnt["nontrivial"] = 1
     return {"viol": core.dedupe(viol), "count": cnt}
+
+
+def bee_nxp_refused(case: dict, e: Exception) -> list:
+    alt = other_order(case, "facs")
+    if alt is None or case.get("in_alt"):
+        return []
+    r = w_bee_nxp(dict(alt, in_alt=1, bin=0))
+    if r["count"].get("bee_nxp") and not r["count"].get("bee_nxp_rejected"):
+        return [("C13.bee-order", D_ORDER, f"perm {case.get('perm')}: {e}; accepted with perm {alt.get('perm')}")]
+    return []
 
 
 def w_bee_nxp(case: dict) -> dict:
@@ -1438,7 +1683,7 @@ def w_bee_nxp(case: dict) -> dict:
         bee = BeeNxp.load_from_config(conf, [td])
         hdrs = bee.export_headers()
     except SPSDKError as e:
-        return {"viol": [], "count": {"bee_nxp_rejected": 1, f"rejected:bee-nxp:{str(e)[:40]}": 1}}
+        return {"viol": bee_nxp_refused(case, e), "count": {"bee_nxp_rejected": 1, f"rejected:bee-nxp:{str(e)[:40]}": 1}}
     except Exception as e:  # noqa
         return {"viol": [("C13.bee-crash", exc_site(e), f"{type(e).__name__}: {e}")], "count": cnt}
     hv, loaded = bee_header_judge(hwm, cfg, hdrs, True)
@@ -1450,11 +1695,22 @@ def w_bee_nxp(case: dict) -> dict:
     except SPSDKError as e:
         cnt["bee_nxp_rejected"] = 1
         cnt[f"rejected:bee-nxp:{str(e)[:40]}"] = 1
-        return {"viol": core.dedupe(viol), "count": cnt}
+        return {"viol": core.dedupe(viol + bee_nxp_refused(case, e)), "count": cnt}
     except Exception as e:  # noqa
         viol.append(("C13.bee-crash", exc_site(e), f"{type(e).__name__}: {e}"))
         return {"viol": core.dedupe(viol), "count": cnt}
     viol += bee_judge_image(hwm, loaded, img, base, enc, None, (), cnt)
+    # history on ONE object: export_headers, export_image, export_image, export_headers
+    try:
+        viol += judge_history("bee", "BeeNxp.export_image", enc, bee.export_image(), L)
+        for h1, h2 in zip(hdrs, bee.export_headers()):
+            viol += judge_history("bee", "BeeNxp.export_headers", h1 or b"", h2 or b"")
+        if bytes(bee.input_image) != img:
+            viol.append(("C13.bee-history", "stored-input-modified", "BeeNxp.input_image changed by export_image"))
+    except SPSDKError as e:
+        viol.append(("C13.bee-history", "second-call-rejected", str(e)))
+    except Exception as e:  # noqa
+        viol.append(("C13.bee-crash", exc_site(e) + ",second-call", f"{type(e).__name__}: {e}"))
     if case.get("bin"):
         # second pass: the exported headers fed back as existing binary headers must give the same engines
         try:
@@ -1487,6 +1743,11 @@ def small_layouts(n: int, lo: int = -1) -> list[tuple]:
     return grid_layouts(lo, n + 1, pairs=False, chains=(2,))
 
 
+def order_layouts(n: int) -> list[tuple]:
+    """Layouts with >= 2 ranges on -1..n+1 (every disjoint pair, every 3- and 4-chain): listed in every order."""
+    return [lay for lay in grid_layouts(-1, n + 1, pairs=True, chains=(3, 4)) if len(lay) > 1]
+
+
 def otfad_nxp_cases(ctx: core.Ctx) -> list[dict]:
     thorough = ctx.tier == "thorough"
     cases = []
@@ -1497,10 +1758,9 @@ def otfad_nxp_cases(ctx: core.Ctx) -> list[dict]:
                 n = n_units(off, L, U_OTFAD)
                 for lay in small_layouts(n):
                     for fs in ([7] * len(lay), [5] + [3] * (len(lay) - 1)):
-                        for endc in (0, 1):
-                            for swap in (0, 1):
-                                cases.append(dict(b, fam=fam, blobs=[[off, L]], regs=[[i, j, f] for (i, j), f in zip(lay, fs)],
-                                                  endc=endc, swap=swap, scr=None))
+                        for endc, swap in (((0, 0), (0, 1), (1, 0), (1, 1)) if thorough else ((0, 0), (1, 1), (1, 0))):
+                            cases.append(dict(b, fam=fam, blobs=[[off, L]], regs=[[i, j, f] for (i, j), f in zip(lay, fs)],
+                                              endc=endc, swap=swap, scr=None))
     for fam in sorted(OTFAD_FAM):
         for off in (0, 16):
             for lay in (((0, 2),), ((0, 1),), ((0, 1), (1, 2)), ((0, 1), (1, 2), (2, 3), (3, 4))):
@@ -1510,6 +1770,13 @@ def otfad_nxp_cases(ctx: core.Ctx) -> list[dict]:
     for lay in small_layouts(4):
         for off2 in (0x800, 0x810, 0xBF0):
             cases.append(dict(b, fam="mimxrt1176", blobs=[[0, 1024], [off2, 1025]], regs=[[i, j, 7] for i, j in lay], endc=1, swap=0, scr=None))
+    # every other order of the key_blobs list
+    for off in (0, 16):
+        for lay in order_layouts(n_units(off, 1025, U_OTFAD)):
+            for perm in perms_of(len(lay)):
+                for scr in ((None, (0x12345678, 0x72)) if len(lay) == 4 or thorough else (None,)):
+                    cases.append(dict(b, fam="mimxrt1176", blobs=[[off, 1025]], regs=[[i, j, 7] for i, j in lay], perm=perm, endc=0,
+                                      swap=0, scr=scr))
     return cases
 
 
@@ -1535,6 +1802,13 @@ def iee_nxp_cases(ctx: core.Ctx) -> list[dict]:
                 cases.append(dict(b, fam=fam, blobs=[[0, 4097]], regs=[[0, 1, mk[0], mk[1]]], k2="low0", lock=lock))
     for lay in small_layouts(4):
         cases.append(dict(b, fam="mimxrt1176", blobs=[[0, 4096], [2, 4097]], regs=[[i, j, "XTS", 256] for i, j in lay], k2="low0"))
+    # every other order of the key_blobs list
+    rot = [("XTS", 256), ("CTRA", 128), ("XTS", 128), ("CTRA", 256)]
+    for lay in order_layouts(n_units(0, 4097, U_IEE)):
+        for perm in perms_of(len(lay)):
+            for s0 in ((0, 1) if thorough else (0,)):
+                cases.append(dict(b, fam="mimxrt1176", blobs=[[0, 4097]], perm=perm, k2="low0",
+                                  regs=[[i, j, *rot[(idx + s0) % 4]] for idx, (i, j) in enumerate(lay)]))
     return cases
 
 
@@ -1550,6 +1824,13 @@ def bee_nxp_cases(ctx: core.Ctx) -> list[dict]:
                     for binh in (0, 1):
                         cases.append(dict(b, L=L, off=off, facs=[[i, j, eng, idx % 4] for idx, ((i, j), eng) in enumerate(zip(lay, asg))],
                                           bin=binh))
+    # every other order of the protected_region list of an engine
+    for off in (0, 16):
+        for lay in order_layouts(n_units(off, 1025, U_BEE)):
+            for asg in engine_assignments(len(lay)):
+                for perm in bee_orders(asg):
+                    cases.append(dict(b, L=1025, off=off, perm=perm, bin=0,
+                                      facs=[[i, j, eng, idx % 4] for idx, ((i, j), eng) in enumerate(zip(lay, asg))]))
     return cases
 
 
@@ -1613,6 +1894,11 @@ def run(ctx: core.Ctx) -> None:
         "bee": {"engines": "every assignment of the ranges to engine 0/1 (<=3 FAC each)", "mode": ["CTR", "ECB (must be refused)"],
                 "keys": ["explicit KIB/nonce", "self-chosen (owned rng)"]},
         "config_level_families": {"otfad": sorted(OTFAD_FAM), "iee": sorted(IEE_FAM), "bee": "family independent"},
+        "listing_order_of_regions": "all permutations for <= 3 regions, reversed + one rotation for 4 (OTFAD/IEE key blobs, BEE FACs per "
+                                    "engine), API level and config level",
+        "histories_on_one_object": {"api": "[encrypt_image|export_image, key-blob/header export] x 2 (+ the locality pieces after it)",
+                                    "config": "[binary_image, export_image, binary_image]; BEE: [export_headers, "
+                                              "export_image, export_image, export_headers]"},
     }
     ctx.rule = ("E1 full product: image length x base offset inside the unit (OTFAD/BEE 1 KiB: 0,16,unit-16; IEE 4 KiB: 0) x address "
                 "window x every placement of 1-2 disjoint ranges and every 3-4 chain of adjacent ranges on the unit grid around the "
@@ -1620,7 +1906,9 @@ def run(ctx: core.Ctx) -> None:
                 "encrypt_image/export_image/encrypt_key_blobs/export_headers and, on a reduced geometry, through "
                 "check_config + *Nxp.load_from_config + binary_image()/export_image() for every supported family; each exported "
                 "image is read back through the per-16-byte-block hardware model, each key blob / region header is unwrapped by "
-                "the model. A case is non-trivial when a valid range intersects a non-empty image (key-blob cases: always); all "
+                "the model; multi-region configurations are also listed in every other order (permutations) and every object is "
+                "exported at least twice (history), the later results compared with the first and the stored input with its "
+                "snapshot. A case is non-trivial when a valid range intersects a non-empty image (key-blob cases: always); all "
                 "cases are pairwise different parameter tuples, the count is measured by the workers")
     ctx.assumptions += [
         "OTFAD context region = [SRTADDR & ~0x3FF, ENDADDR | 0x3FF]; first matching valid context wins (contexts are disjoint here)",
